@@ -746,7 +746,14 @@ pub fn run_case(line: &str) -> (String, Vec<String>) {
             (format!("chunk{}", c), vec![], c),
         ]
     };
+    let heap0 = heap_mark();
     let base = run_parser(mk(scheds[0].1.clone()), scheds[0].2);
+    let (peak, largest) = heap_peak_since(heap0);
+    // C05: memory bounded by a constant multiple of the input consumed (the reader's first chunk and
+    // the harness's own record of the items included) - not by a count the input merely declares
+    if peak > 64 * delivered.len() + (1 << 20) {
+        fails.push(format!("C05:parsing {} bytes allocated {} bytes at peak (largest request {})", delivered.len(), peak, largest));
+    }
     let base_text = base.text(false);
     fails.extend(recall_oracles(&delivered, fault, &base, "one-shot"));
     let mut again_note = String::new();
